@@ -70,6 +70,9 @@ type Run struct {
 	resolvers   map[*ssa.Function]*term.Resolver
 	consensus   map[*ssa.Function]bool
 	VerifDir    string
+	// Shadow: self-test run on an in-memory variant of the tree; prints
+	// SHADOW lines only, writes no evidence and no violation files.
+	Shadow bool
 }
 
 func NewRun(prop, tier string, p *prog.Program, roots []*prog.Root, mods *term.Mods) *Run {
@@ -242,6 +245,22 @@ func (r *Run) Finish() int {
 		if !found {
 			r.Notes = append(r.Notes, "known finding not re-derived on this tree (repaired or construct gone): "+f.ConstructKey)
 		}
+	}
+	if r.Shadow {
+		code := 0
+		for _, m := range r.floorsBad {
+			fmt.Printf("SHADOW-UNDECIDED\tvacuous\t%s\n", m)
+			code = 2
+		}
+		for _, o := range und {
+			fmt.Printf("SHADOW-UNDECIDED\t%s\t%s\n", o.Rule, o.Key)
+			code = 2
+		}
+		for _, o := range viol {
+			fmt.Printf("SHADOW-FIRED\t%s\t%s\t%s\n", o.Rule, o.Key, o.Where)
+			code = 1
+		}
+		return code
 	}
 	code := 0
 	os.MkdirAll(filepath.Join(r.VerifDir, "evidence", "violations"), 0o755)
